@@ -15,6 +15,10 @@ SWC = "swcgeom/core/swc.py"
 KEYS = list(COLS)
 OPTS = dict(models=X.MODELS)
 
+from pyvc import ext_tables  # noqa: E402
+
+ext_tables.chain(X.ModelsProxy)  # getattr-built caches / lookup tables: np.bincount, np.argsort, np.searchsorted, np.add.at, np.flatnonzero on symbolic columns
+
 
 def built(S, cls, args, declared):
     """An arbitrary instance of a view class = what the REAL constructor builds from arbitrary arguments (`S.new`: `cls.__init__` is
@@ -307,6 +311,11 @@ def register(R: Registry):
     register_branch(R, path_obj)
     register_tree(R)
     register_swc(R, path_obj)
+    # "views are faithful windows" over HISTORIES: whatever an accessor leaves on its inputs is arbitrary when the next one is entered
+    # (pyvc/extra_attrs.py); the views / owners themselves are frozen (safety/frame-attr-write, safety/frame-write)
+    for c in R.values():
+        if c.prop == "C09":
+            c.options.setdefault("extra_attrs_arbitrary", True)
 
 
 
